@@ -65,18 +65,22 @@ def destKeys (names : List PyStr) : List (List Nat) := (destOrder names).map key
 example of the fixed finding `dests-names-unsorted`. -/
 def destKeysStrOrder (names : List PyStr) : List (List Nat) := (pySorted names).map keyBytes
 
-/-! ### The `/EmbeddedFiles` name array (as repaired by "sort the /EmbeddedFiles name tree by key")
+/-! ### The `/EmbeddedFiles` name array (as repaired: sorted by the bytes of the file names)
 
-`for pdf_attachment in sorted(pdf_attachments, key=lambda attachment: attachment['F'].data)` where
-`attachment['F'] = pydyf.String(filename.encode(errors='ignore'))`: the key of the tree is the file name (UTF-8 bytes),
-the *sort* key is its serialised form `pydyf.String.data`. -/
+`for pdf_attachment in sorted(pdf_attachments, key=lambda attachment: attachment['F'].string)` where
+`attachment['F'] = pydyf.String(filename.encode(errors='ignore'))`: the key of the tree is the file name (UTF-8 bytes)
+and so is the sort key (before the repair it was the serialised form `pydyf.String.data`, kept below as
+`embeddedKeysWrittenOrder` for the regression example of the fixed finding). -/
 
 /-- `pydyf.String(b).data` for a bytes value: `(` + the bytes with `\`, `(`, `)` escaped by a backslash + `)`. -/
 def litData (s : List Nat) : List Nat :=
   40 :: s.flatMap (fun b => if b = 92 ∨ b = 40 ∨ b = 41 then [92, b] else [b]) ++ [41]
 
 /-- Keys of the `/Names` array of `/EmbeddedFiles` (the file names as bytes), in array order. -/
-def embeddedKeys (names : List (List Nat)) : List (List Nat) := pySortedBy litData names
+def embeddedKeys (names : List (List Nat)) : List (List Nat) := pySortedBy (fun n => n) names
+
+/-- The order before the repair: sorted by the written form of the keys. -/
+def embeddedKeysWrittenOrder (names : List (List Nat)) : List (List Nat) := pySortedBy litData names
 
 /-- Adjacent elements in order. -/
 def sortedBy (le : List Nat → List Nat → Bool) : List (List Nat) → Bool
